@@ -97,4 +97,43 @@ PROPS = {
         "components": {"real": REAL, "stub": STUB_COMMON + ["core.SimpleLocationProvider wiring of the parent"]},
         "assumptions": ["core.Matches as matching primitive", "RuleEnabled for an id that is not a rule is not judged"],
     },
+    "C09": {
+        "level": "exploration",
+        "build": "plain",
+        "tiers": tiers(4000, 45, 120000, 900),
+        "rule": "3-5 locations behind core.SimpleLocationProvider; histories of AddFact/RemFact (same fact ids in every location), AddRule/RemRule, EnableRule, "
+                "and SetParents changing the parent lists over time (single path to each ancestor; 1 run in 6 also tries self loops and indirect loops); after "
+                "every operation EVERY location is observed (GetFact on every id, own and inherited search battery, dispatch battery with action values) and "
+                "compared with the model in which only the addressed location changed. A loop must give an error (a stack overflow kills the worker and is "
+                "reported with the journalled plan). Non-trivial: an inherited search or dispatch returned something from an ancestor; distinct = distinct "
+                "(observation, canonical model state) pairs.",
+        "components": {"real": REAL, "stub": STUB_COMMON + ["core.SimpleLocationProvider (the System-level provider is exercised by C17/C11 worlds)"]},
+        "assumptions": ["diamond-shaped ancestries are not generated (inherited results would appear once per path by the documented merge)",
+                        "rule ids are distinct along an ancestor chain"],
+    },
+    "C19": {
+        "level": "exploration",
+        "build": "plain",
+        "tiers": tiers(4000, 45, 100000, 900),
+        "rule": "world matrix: every operation (AddFact, RemFact, AddRule, RemRule, EnableRule, SetParents, Clear, an event whose rule action calls Env.AddFact/Env.RemFact; "
+                "GetFact, SearchFacts, GetRule, SearchRules, ListRules, StateSize, Query, ProcessEvent) x protection state {none, write key, read key, both, read-only, "
+                "disabled} x caller {no key, wrong key, right key} x {indexed, linear}, enumerated completely in both tiers (576 cells); world histories: seeded "
+                "histories in which protection changes between operations and reloads occur. The model decides allow/refuse; after every operation the live "
+                "state (with the right keys) and the storage dump must equal the model, so a refused operation that changed anything is caught. "
+                "Non-trivial: the model refused the operation; distinct = distinct (operation, canonical model state) pairs.",
+        "exhaustive_claim": False,
+        "components": {"real": REAL, "stub": STUB_COMMON},
+        "assumptions": ["keys are carried in core.Context.ReadKey/WriteKey as the service layer does"],
+    },
+    "C20": {
+        "level": "exploration",
+        "build": "plain",
+        "tiers": tiers(6000, 45, 150000, 900),
+        "rule": "world capacity: MaxFacts 1-6, histories of AddFact (given and generated ids), overwrites, RemFact, AddRule, property writes, reloads around the "
+                "boundary; after every successful public add StateSize <= MaxFacts; an add the model refuses for capacity leaves live state and storage "
+                "unchanged. Worlds breaker / throttle: fake-clock arrival patterns against OutboundBreaker and Throttle (see their entries). "
+                "Non-trivial: an add was refused for capacity or a limiter refused a call; distinct = distinct (operation, canonical state) pairs.",
+        "components": {"real": REAL + ["core.OutboundBreaker, core.Throttle"], "stub": STUB_COMMON},
+        "assumptions": ["an overwrite at capacity may be admitted or refused (not judged)", "expired but not yet purged items may count towards the limit (not judged)"],
+    },
 }
